@@ -530,3 +530,14 @@ def validate_lines(ctx, module, rows_or_path, env=None, timeout=1100, cfg=None, 
             (r.violation or r.error or "")[:1500]))
         return evaluated, bad, r
     return n, bad, r
+
+
+def failed_vectors(out, namevar="name", okvar="ok"):
+    """Names of the vectors whose `ok` is FALSE in a TLC run with -continue (one vector per state).
+    Independent of the order in which TLC prints the variables."""
+    bad = []
+    for blk in re.split(r"\n(?=State \d+:|Error:)", out):
+        if re.search(r"/\\ %s = FALSE" % okvar, blk):
+            m = re.search(r'/\\ %s = "?([\w.:-]+)"?' % namevar, blk)
+            bad.append(m.group(1) if m else "?")
+    return sorted(set(bad))
